@@ -1282,7 +1282,7 @@ func TestVerif_C09(t *testing.T) {
 
 func TestVerif_C09Race(t *testing.T) {
 	res := newVerifResult("rounds of 8 concurrent injections (right / wrong passphrase, with / without chain) racing 32 requests (/readyz, /public/x509ca, /public/sshca, JWKS, certgen, login) on a fresh sealed state under the race detector: exactly one injection answers 200, one ready message, every 200 answer of a request shows complete key material")
-	rounds := 6
+	rounds := 10
 	if verifThorough() {
 		rounds = 200
 	}
@@ -1321,16 +1321,19 @@ func TestVerif_C09Race(t *testing.T) {
 			wg.Add(1)
 			go func(i int, op c09Op) {
 				defer wg.Done()
-				<-start
+				// the request is built before the barrier: after it the injections do nothing but enter the handler,
+				// so that several of them are between its first test and unsealCA's critical section at the same time
 				form := url.Values{}
 				form.Set("ssh_ca_password", op.pass)
 				req := httptest.NewRequest("POST", "https://keymaster.example:6920"+secretInjectorPath, strings.NewReader(form.Encode()))
 				req.Header.Set("Content-Type", "application/x-www-form-urlencoded")
-				req.TLS = &tls.ConnectionState{}
+				// every injection PRESENTS the admin certificate; the one "without chain" presents it unverified
+				req.TLS = &tls.ConnectionState{PeerCertificates: []*x509.Certificate{env.adminClient}}
 				if op.chain {
 					req.TLS.VerifiedChains = [][]*x509.Certificate{{env.adminClient, env.adminCA}}
 				}
 				rr := httptest.NewRecorder()
+				<-start
 				env.state.secretInjectorHandler(rr, req)
 				injCodes[i] = rr.Code
 			}(i, op)
